@@ -329,7 +329,7 @@ def check(rep, prop, tier, seed):
         obligations.append(("checkC03_%s" % n, "checkC03 Spec.%s Gen.%s = true" % (n, n), "by decide +kernel"))
     general = ["O1722.C18_can_bounds", "O1722.C18_can_local", "O1722.C18_can_steps", "O1722.listenLoop_bounds",
                "O1722.listenLoop_steps", "O1722.listenLoop_fuel", "O1722.C18_hello", "O1722.C18_vss", "O1722.C18_cvf",
-               "O1722.C18_aaf", "O1722.C18_crf_lookup"]
+               "O1722.C18_aaf", "O1722.C18_crf_lookup", "O1722.C18_crf_step", "O1722.mclk_unreachable"]
     atoms_expr = "[" + ", ".join("(\"%s\", (atomsC01 Spec.%s Gen.%s) ++ (atomsC03 Spec.%s Gen.%s))" % (n, n, n, n, n) for n in fmts) + "]"
     res = pipeline.proof_stage(rep, prop, ["O1722.Gen.Data", "O1722.Props.Listeners"], obligations, general, atoms_expr)
     common.ensure_driver()
@@ -412,6 +412,31 @@ def check(rep, prop, tier, seed):
                         jobs.append((which, "%s:%s" % (which, "".join(modeargs.values()) or "-"), args, modeargs, dg + [last],
                                      ["length-grid:%s.%s:%s" % (fmt, fld, tail)] * len(dg) + ["final-valid"]))
             if which == "crf":
+                # runs that exercise the media-clock bookkeeping: CRF timestamps, then AAF packets on / near / off the grid
+                for _ in range(20 if thorough else 6):
+                    T = rng.choice([125000 * rng.randrange(1, 1 << 20), rng.getrandbits(40), (1 << 32) - 125000 * rng.randrange(1, 200)])
+                    dg = [bytes(crf_packet(rng, ts0=T))]
+                    k = 0
+                    for _ in range(rng.randrange(2, 12)):
+                        k += rng.choice([1, 1, 1, 2, 5, 200])
+                        v = bytearray(aaf_packet(rng, 24))
+                        setf(v, 0, "Pcm", "AVTP_TIMESTAMP", (T + 125000 * k + rng.choice([0, 0, 0, 5208, 5209, -5208, -5209, 9000, -60000])) % (1 << 32))
+                        dg.append(bytes(v))
+                        if rng.random() < 0.2:
+                            dg.append(bytes(crf_packet(rng, ts0=T + 125000 * (k + 1))))
+                    jobs.append((which, "%s:%s" % (which, "".join(modeargs.values())), args, modeargs,
+                                 dg + [bytes(crf_packet(rng, stream_id=0x1122334455667788))], ["media-clock-run"] * len(dg) + ["final-valid"]))
+                # the alignment window at its edges: one exact packet (search succeeds), then consecutive
+                # media-clock periods with offsets just inside / outside +-5208 ns
+                for offs in ((5208, 5209, 5208, -5208, -5209, 0), (5209, 0, -5209, -5208), (20833, -20833, 5208)):
+                    T = 125000 * rng.randrange(1, 1 << 20)
+                    dg = [bytes(crf_packet(rng, ts0=T))]
+                    for k, j in enumerate((0,) + offs):
+                        v = bytearray(aaf_packet(rng, 24))
+                        setf(v, 0, "Pcm", "AVTP_TIMESTAMP", (T + 125000 * (k + 1) + j) % (1 << 32))
+                        dg.append(bytes(v))
+                    jobs.append((which, "%s:%s" % (which, "".join(modeargs.values())), args, modeargs,
+                                 dg + [bytes(crf_packet(rng, stream_id=0x1122334455667788))], ["alignment-window"] * len(dg) + ["final-valid"]))
                 # the 32-bit presentation time at its boundaries, on and off the media-clock grid, with and without queued CRF timestamps
                 for pre in ((), (0,), (8,), (125000 * 3,), ((1 << 32) - 125000 * 2,)):
                     for ts in (0, 1, 7, 8, 124999, 125000, 125001, (1 << 31) - 1, 1 << 31, (1 << 32) - 125001, (1 << 32) - 125000, (1 << 32) - 124999,
@@ -464,7 +489,7 @@ def check(rep, prop, tier, seed):
             rc, lines, err = run_real(exes[which], args, dg)
         except subprocess.TimeoutExpired:
             rc, lines, err = 96, ["WATCHDOG (harness timeout)"], ""
-        per = model_outputs(which, modeargs, dg) if which != "crf" else None
+        per = model_outputs(which, modeargs, dg) if (which != "crf" or modeargs.get("o") == "listener") else None
         return rc, lines, err, per
 
     with ThreadPoolExecutor(max_workers=14) as ex:
@@ -492,6 +517,12 @@ def check(rep, prop, tier, seed):
         elif which == "crf":
             if "CRF: Stream ID mismatch" not in err.strip().splitlines()[-1:][0] if err.strip() else True:
                 key = "%s:last-datagram-not-processed" % label
+            elif per is not None:
+                # listener mode: the alignment reports must be the Model's (media-clock bookkeeping)
+                _, exp_out = expected_from_model(which, per)
+                got = b"".join(bytes.fromhex(l[7:].strip()) for l in lines if l.startswith("stdout "))
+                if got != exp_out:
+                    key = "%s:differs-from-model" % label
         else:
             exp_can, exp_out = expected_from_model(which, per)
             if which == "can":
